@@ -753,6 +753,8 @@ def lowered_alternatives(k, dt):
     repaired_<k> may be listed here while a patch of .scratch/c01k/ is pending."""
     low = coq_names(k, dt)[1]
     alts = [low]
+    if k.name == "integer_pow0":                                               # fix_integer_pow0.diff (pending)
+        alts.append(f"repaired_integer_pow0 {sb_lit(dt)}")
     return alts
 
 
@@ -761,6 +763,8 @@ def deep_alternatives(k, dt):
     if dn is None:
         return []
     alts = [dn]
+    if k.name == "integer_pow0":
+        alts.append(f"KOp2 (OAdd {sb_lit(dt)}) (KOp2 (OMul {sb_lit(dt)}) v0 (kz 0)) (kz 1)")
     return alts
 
 
